@@ -60,15 +60,32 @@ package vgirpc
 //@ func (*Server).serveUnary
 //@   property C04
 //@   at call (*CallContext).drainLogs after (*Server).serveUnary$1 assert [afterhandler] arg0 == callCtx
-//@   at call writeLogBatch assert [errlogs] callErr != nil && 0 <= rangeindex + 1 && rangeindex + 1 < len(logs) && arg1 == info.ResultSchema && arg4 == req.RequestID
-//@   at call writeErrorBatch assert [oneexception] arg2 == callErr && callErr != nil && arg1 == info.ResultSchema && arg4 == req.RequestID
+//@   at call writeLogBatch#1 assert [errlogs] callErr != nil && 0 <= rangeindex + 1 && rangeindex + 1 < len(logs) && arg1 == info.ResultSchema && arg4 == req.RequestID
+//@   at call writeErrorBatch#1 assert [oneexception] arg2 == callErr && callErr != nil && arg1 == info.ResultSchema && arg4 == req.RequestID
+//@   # a value the result column cannot hold is answered like a handler failure (repaired defect: a fresh
+//@   # error-only stream dropped the handler's logs): the same logs, each with the request id, then the
+//@   # one exception batch — a SerializationError, made only after the handler itself reported success
+//@   at call writeLogBatch#2 assert [serializationlogs] callErr == nil && 0 <= rangeindex + 1 && rangeindex + 1 < len(logs) && arg2 == logs[rangeindex+1] && arg1 == info.ResultSchema && arg4 == req.RequestID
+//@   at call writeErrorBatch#2 assert [serializationfailure] callErr == nil && arg2 == handlerErr && handlerErr != nil && arg1 == info.ResultSchema && arg4 == req.RequestID
+//@   at call writeErrorResponse after (*CallContext).drainLogs assert [hint_nologlessanswer] false
 //@   # the outcome reported is the handler's own: the error the recovering literal left behind (the
 //@   # handler's error, or the RuntimeError made of its panic) — nothing else turns a returned value
 //@   # into an exception or an error into a value
 //@   pathvar handlerSaid error
 //@   at call (*Server).serveUnary$1 setflag handlerSaid callErr
-//@   at call writeErrorBatch assert [handlersown] arg2 == handlerSaid && handlerSaid != nil
+//@   at call writeErrorBatch#1 assert [handlersown] arg2 == handlerSaid && handlerSaid != nil
+//@   at call writeErrorBatch#2 assert [valuesownfailure] handlerSaid == nil
 //@   at call WriteVoidResponse assert [voidsown] handlerSaid == nil
 //@   at call WriteUnaryResponse assert [valuesown] handlerSaid == nil
 //@   at call WriteVoidResponse assert [voidok] callErr == nil && info.ResultType == nil && arg1 == logs && arg3 == req.RequestID
 //@   at call WriteUnaryResponse assert [valueok] callErr == nil && arg1 == info.ResultSchema && arg2 == logs && arg5 == req.RequestID
+
+// Over HTTP the same holds for a value the result column cannot hold (repaired defect: the
+// answer was writeHttpError's error-only stream, without the handler's logs and without the
+// request id): it goes through the logs-then-one-error-batch writer with the request's own id
+// and the logs drained after the handler returned.
+//
+//@ func (*HttpServer).handleUnary
+//@   property C04
+//@   at call (*HttpServer).writeUnaryCapError#2 assert [serializationfailure] arg2 == info && arg3 == req.RequestID && arg4 == logs && arg5 != nil
+//@   at call (*HttpServer).writeHttpError after (*CallContext).drainLogs assert [hint_nologlessanswer] false
